@@ -1103,6 +1103,23 @@ theorem redacted_field_entry (E : Ext) (env : Env) (perms : List String)
   · rw [← he] at h1; cases h1
 
 
+/-! #### strict decoding of a tag the caller may not see -/
+
+
+theorem decode_union_str_absent (E : Ext) (env : Env) (perms : List String) (fl : Flags) (cls tag : String)
+    (u : UnionDef) (hu : env.union? cls = some u) (hp : u.isTagPresent tag perms = false) :
+    decode E env perms true (.union fl cls) (.str tag) = .error (.verr "unknown tag") := by
+  unfold decode
+  simp [hu, hp, verr]
+
+theorem decode_union_obj_absent (E : Ext) (env : Env) (perms : List String) (fl : Flags) (cls tag : String)
+    (kvs : List (String × JVal))
+    (u : UnionDef) (hu : env.union? cls = some u) (ht : jsonLookup ".tag" kvs = some (.str tag))
+    (hp : u.isTagPresent tag perms = false) :
+    decode E env perms true (.union fl cls) (.obj kvs) = .error (.verr "unknown tag") := by
+  unfold decode
+  simp [hu, hp, ht, verr]
+
 /-! ### Part 4: where the generated validators carry the redactor of an alias -/
 
 
